@@ -384,6 +384,94 @@ def check_include(sb, p, loc, res):
     res.cover('include_outcomes', ('ok' if err is None else 'refused'))
 
 
+ODD_PROJECT_DIRS = ['g?me', '?', 'a?b?c', 'p;q', 'pr%sj', 'sp ace', 'st*r', 'br[a]c', '~proj', 'dot.dir', 'x?/y']
+
+
+def check_odd_project_dirs(res):
+    """The project directory's own NAME holds characters that mean something to the load path (the ? placeholder, the ;
+    separator) or to patterns: the directory a package is looked up in is the requiring file's directory as it is
+    spelled, whatever its name. For each name: packages lib / x / sub/m exist inside; every directory obtained by
+    substituting a require string for a ? of the name (and the parts of a name split at ;) exists next to it and holds
+    canaries of the same names."""
+    import itertools
+    from pico8 import tool
+
+    class Mini(object):
+        pass
+    for name, lp, main_rel in itertools.product(ODD_PROJECT_DIRS, ('default', 'init', 'libdir', 'env-relative'), (False, True)):
+        sb = Mini()
+        sb.root = os.path.realpath(tempfile.mkdtemp(prefix='c12odd_'))
+        try:
+            proj = os.path.join(sb.root, 'base', name)
+            os.makedirs(os.path.join(proj, 'sub'))
+            os.makedirs(os.path.join(proj, 'lib'))
+            for f in ('lib.lua', 'x.lua', 'sub/m.lua', 'lib/lib.lua', 'lib/x.lua', 'lib/init.lua'):
+                open(os.path.join(proj, f), 'wb').write(b'inside=1\n')
+            decoys = set()
+            for q in ('lib', 'x', 'sub/m', 'lib.lua', 'x.lua', ''):
+                decoys.add(name.replace('?', q))
+                decoys.add(name.replace('?', q, 1))
+            for part in name.split(';'):
+                decoys.add(part)
+            decoys.discard(name)
+            for dn in sorted(decoys):
+                dd = os.path.join(sb.root, 'base', dn)
+                if not dn or os.path.exists(dd) or os.path.realpath(dd) == os.path.realpath(proj) or under(os.path.realpath(proj), os.path.realpath(dd)):
+                    continue
+                try:
+                    os.makedirs(os.path.join(dd, 'sub'), exist_ok=True)
+                    os.makedirs(os.path.join(dd, 'lib'), exist_ok=True)
+                    for f in ('lib.lua', 'x.lua', 'sub/m.lua', 'lib', 'x', 'lib/lib.lua', 'lib/x.lua', 'lib/init.lua', 'init.lua'):
+                        fp = os.path.join(dd, f)
+                        if not os.path.isdir(fp):
+                            open(fp, 'wb').write(b'canary=1\n')
+                except OSError:
+                    continue
+            for fn in ('lib.lua', 'x.lua'):
+                if not os.path.isdir(os.path.join(sb.root, 'base', fn)):
+                    open(os.path.join(sb.root, 'base', fn), 'wb').write(b'canary=1\n')
+            main = os.path.join(proj, 'main.lua')
+            out = os.path.join(sb.root, 'out.p8')
+            open(main, 'wb').write(b'require("lib")\nrequire("x")\nrequire("sub/m")\n')
+            args = ['build', out, '--lua', os.path.join('base', name, 'main.lua') if main_rel else main]
+            env_old = os.environ.pop('PICO8_LUA_PATH', None)
+            if lp == 'init':
+                args += ['--lua-path', '?;?.lua;?/init.lua']
+            elif lp == 'libdir':
+                args += ['--lua-path', 'lib/?.lua;?.lua']
+            elif lp == 'env-relative':
+                os.environ['PICO8_LUA_PATH'] = '?.lua;lib/?.lua'
+            res.evaluations += 1
+            res.nontriv(('odd-project-dir', name, lp, main_rel))
+            case = {'kind': 'odd-project-dir', 'name': name, 'loadpath': lp, 'relative_main': main_rel}
+            cwd0 = os.getcwd()
+            os.chdir(sb.root)
+            try:
+                with OpenTracer(sb) as tr:
+                    try:
+                        rcode = tool.main(args)
+                        err = None
+                    except BaseException as e:
+                        rcode, err = None, e
+            finally:
+                os.chdir(cwd0)
+                os.environ.pop('PICO8_LUA_PATH', None)
+                if env_old is not None:
+                    os.environ['PICO8_LUA_PATH'] = env_old
+            bad = [rp for rp, mode in tr.log if rp not in (os.path.realpath(main), os.path.realpath(out)) and not under(rp, os.path.realpath(proj))]
+            if bad:
+                res.violation('C12|require|opened-outside|project-dir-name=%s|loadpath=%s' % (name, lp),
+                              'project directory %r, load path %s: the build opened %s, outside the requiring file\'s directory' % (
+                                  name, lp, os.path.relpath(bad[0], sb.root)), case)
+            elif rcode != 0 or err is not None:
+                res.violation('C12|require|own-directory-not-searched|project-dir-name=%s|loadpath=%s' % (name, lp),
+                              'project directory %r, load path %s: the packages next to main.lua were not found (%r)' % (name, lp, err or rcode), case)
+            else:
+                res.outcome(('odd-project-dir', lp))
+        finally:
+            shutil.rmtree(sb.root, ignore_errors=True)
+
+
 def include_history(res):
     """Loads in ONE process whose cart file-name strings are equal while the permitted root differs: the same relative
     name from two working directories, and the same absolute path under two HOME settings (inside / outside a PICO-8
@@ -461,11 +549,15 @@ def strings(tier, sb):
 
 def shards(tier, seed):
     n = 32 if tier == 'quick' else 96
-    return [('strs', tier, k, n) for k in range(n)] + [('history',)]
+    return [('strs', tier, k, n) for k in range(n)] + [('history',), ('odd-project-dirs',)]
 
 
 def run_shard(item):
     res = ShardResult()
+    if item[0] == 'odd-project-dirs':
+        check_odd_project_dirs(res)
+        res.sample({'project_dir': 'base/g?me', 'siblings_with_canaries': ['base/glibme', 'base/gxme', 'base/gme']})
+        return res
     if item[0] == 'history':
         include_history(res)
         res.sample({'history': 'cart.p8 loaded from projA then projB (relative name), game.p8 under two HOME settings; all 24 orders'})
@@ -509,6 +601,9 @@ def replay(case):
     res = ShardResult()
     if case.get('kind') == 'include-history':
         include_history(res)
+        return [(s, v[0]) for s, v in res.violations.items()]
+    if case.get('kind') == 'odd-project-dir':
+        check_odd_project_dirs(res)
         return [(s, v[0]) for s, v in res.violations.items()]
     sb = Sandbox()
     try:
